@@ -361,7 +361,7 @@ def export_ply(
         vertex_color = (
             hasattr(mesh, "visual")
             and mesh.visual.kind == "vertex"
-            and len(mesh.visual.vertex_colors) == len(mesh.vertices)
+            and np.shape(mesh.visual.vertex_colors) == (len(mesh.vertices), 4)
         )
         if vertex_color:
             header.append(templates["color"])
